@@ -58,6 +58,18 @@ CHECKS = {
         note="Values from three finite alphabets rotated by VERIF_SEED; centered differences within one step of a bound are held to the one-sided bound; only upper bounds are enforced (as the statement says); thread-parallel approximation is excluded by CallableParallelExecution's documented contract.",
         technique="full product of structural axes, analytic oracle with derived error bounds and evaluation-point log",
     ),
+    "C18": dict(
+        engine="E2-product", category="exploration",
+        text="Full product of every RegressorFactory class implementing predict_jacobian x its discrete settings (all RBF kernels x epsilon, polynomial degrees and penalties, PCE, MOE, regressor chains, GP) x input/output transformer pipelines (length <= 2) x 3/4 learning sets x 8 query points, plus transformer pipelines alone and by-name surrogate disciplines, executed on the real classes; Jacobians are compared with Richardson-extrapolated differences of the model's own predict within an a-posteriori error estimate; interpolation, inverse-transform identities and bitwise SurrogateDiscipline equality are checked.",
+        note="Structural axes complete within the stated bounds (quick: <= 1 transformed group + diagonal; thorough: 376 input/output pairs); value alphabet = 3 tables rotated by VERIF_SEED; cases whose reference error estimate exceeds 1e-5 x derivative scale are counted as reference-unreliable; the PCE gradient is accepted to 1e-5 relative (OpenTURNS accuracy).",
+        technique="full product of configuration axes, derivative-vs-own-prediction oracle with a-posteriori error estimate",
+    ),
+    "C19": dict(
+        engine="E2-product", category="exploration",
+        text="Full product of all 19 DistributionFactory classes (SciPy and OpenTURNS versions, generic wrappers, truncated / transformed / Dirac, joint distributions of every ordered pair and a Gaussian copula) x parameter alphabets x probabilities {0.01..0.99}; every (family, parameters) wrapped by both libraries compared directly; parameter spaces: all 8 arrival orders of <= 2 random and <= 1 deterministic variables x variable alphabets x 3 construction paths (transform identities, deterministic variables on the affine design-space map including gradients); statistics estimators through their deterministic consequences; closed-form reference laws with derived tolerances.",
+        note="Numeric properties are checked on a finite value alphabet (3 affine images by seed); statistical statements only through deterministic consequences (no hypothesis test: sampling is another family); accuracy of the interfaced libraries on singular densities is out of scope.",
+        technique="full product of classes x parameter alphabets x modifiers x parameter-space shapes, closed-form oracle",
+    ),
     "C12": dict(
         engine="E4-crash", category="fault_enumeration",
         text="For every configuration (MDO DisciplinaryOpt with SLSQP and with COBYLA, MDO MDF with SLSQP, DOE full-factorial / custom samples on one discipline and on an MDF system) x backup at each function call / each iteration x normalized or not x counter kept or reset, an uninterrupted reference run is logged; then the process is really killed (os._exit) inside EVERY discipline execution k = 1..K of the run, the backup file is loaded and compared with the reference snapshot taken at the last backup event before execution k, a fresh process restarts with load=True and is checked for rework, kept entries, optimum and (exact-replay configurations) equality with the uninterrupted history; for small runs every second crash point of the restart is enumerated too (file already containing earlier data).",
